@@ -6,6 +6,12 @@ pub const HARD: u32 = 0x8000_0000;
 
 /// one path component -> full 32-bit index
 pub fn classify_component(c: &str) -> Class<u32> {
+    // blanks around a component are an exotic but unambiguous spelling (also around a hardened marker)
+    let ct = c.trim_matches(|x: char| matches!(x, ' ' | '\t' | '\n' | '\r' | '\u{b}' | '\u{c}'));
+    if ct.len() != c.len() { return match classify_component_trimmed(ct) { Class::Accept(v) | Class::Unc(v) => Class::Unc(v), Class::Reject => Class::Reject }; }
+    classify_component_trimmed(c)
+}
+fn classify_component_trimmed(c: &str) -> Class<u32> {
     let (body, hard, exotic_mark) = if let Some(b) = c.strip_suffix('\'') { (b, true, false) }
         else if let Some(b) = c.strip_suffix('h').or_else(|| c.strip_suffix('H')) { (b, true, true) } else { (c, false, false) };
     let strict = !body.is_empty() && body.bytes().all(|b| b.is_ascii_digit()) && (body == "0" || !body.starts_with('0'));
